@@ -85,7 +85,7 @@ def accessor_table(ctx, rr):
                 # has_links / links / set_links: out=True -> OUT field, out=False -> IN field, identically in all members
                 maps = {}
                 for m in ms:
-                    maps[m] = _out_mapping(P, methods[m])
+                    maps[m] = _out_mapping(P, methods[m]) or _out_mapping_rows(ctx, methods[m])
                 vals = set(tuple(sorted(v.items())) if v else None for v in maps.values())
                 ok = len(vals) == 1 and None not in vals
                 exp = None
@@ -93,9 +93,14 @@ def accessor_table(ctx, rr):
                     mp = dict(list(vals)[0])
                     o = fam.get('outlinks', {})
                     i = fam.get('inlinks', {})
-                    oc = set(x for v in o.values() for x in v)
-                    ic = set(x for v in i.values() for x in v)
-                    ok = {mp.get(True)} == oc and {mp.get(False)} == ic
+
+                    def val_of(x):
+                        if x is None:
+                            return None
+                        return int(x) if str(x).isdigit() else CE.get(mod, x)
+                    oc = set(val_of(x) for v in o.values() for x in v)
+                    ic = set(val_of(x) for v in i.values() for x in v)
+                    ok = {val_of(mp.get(True))} == oc and {val_of(mp.get(False))} == ic
                     exp = mp
                 rr.ob(where, 'generic accessors %s select the outbound field for out=True and the inbound field for out=False, '
                       'the same fields the directional accessors use (%s)' % (sorted(ms), exp), ok=ok)
@@ -216,6 +221,33 @@ def _out_mapping(P, u):
     if var is None or set(idx) != {var}:
         return None
     return mp
+
+
+def _out_mapping_rows(ctx, u):
+    """the same mapping read off the decision table of the accessor (any spelling of the selection)"""
+    from .table_rules import tables
+    import re as _re
+    try:
+        rows = tables(ctx, u, iters=1)
+    except AnalysisError:
+        return None
+    mp = {}
+    for r in rows:
+        o = r.val.get('truthy:out')
+        if o is None:
+            return None
+        idx = set()
+        for e in r.events:
+            if e.kind in ('return', 'store'):
+                idx |= set(_re.findall(r'self\.data\[(\w+)\]', (e.text or '') + ' ' + (e.name or '')))
+        for k in r.val:
+            idx |= set(_re.findall(r'self\.data\[(\w+)\]', k))
+        if len(idx) != 1:
+            return None
+        if mp.get(o, list(idx)[0]) != list(idx)[0]:
+            return None
+        mp[o] = list(idx)[0]
+    return mp if set(mp) == {True, False} else None
 
 
 def list_len(CE, mod, e):
@@ -405,14 +437,42 @@ def tail_protocol(ctx, rr):
         loop = loops[0]
         tgt = [x.id for x in ast.walk(loop.target) if isinstance(x, ast.Name)]
         is_last = tgt[0] if tgt else None
+        from .table_rules import tables
+        import re as _re
+        CE_ = const_env(ctx)
+        mod_ = P.class_mod[TRIE_NODE]
+        bit_is, bit_has = CE_.require(mod_, is_tail_bit), CE_.require(mod_, has_tail_bit)
+        rows = tables(ctx, w, stmts=loop.body, iters=1, keep=lambda nm, c: nm in ('flag', 'unflag', 'write', 'pack'))
         ops = []
-        for c in ast.walk(loop):
-            if isinstance(c, ast.Call) and isinstance(c.func, ast.Name) and c.func.id in ('flag', 'unflag') and len(c.args) == 3:
-                facts = gfw.facts_at(c) or set()
-                cond = sorted((f[0], f[1]) for f in facts if f[0] in ('T', 'F') and is_last in f[2])
-                ops.append((c.func.id, ast.unparse(c.args[2]), tuple(cond)))
-        exp = {('flag', is_tail_bit, ()), ('flag', has_tail_bit, (('F', is_last),))}
-        ok = set(ops) == exp
+        ok = bool(rows)
+        for row in rows:
+            last = row.val.get('truthy:' + is_last)
+            # the record that is packed: a list literal whose 2nd element is the flags byte, then flag()/unflag() calls on it
+            byte, rec = None, None
+            for e in row.events:
+                if e.kind == 'set' and e.args:
+                    m = _re.search(r'[\[\(]\s*[^,\[\]\(\)]+,\s*(\d+)\s*[\]\)]', e.args[0])
+                    if m:
+                        byte, rec, rec_text = int(m.group(1)), e.name, e.args[0]
+                if e.kind == 'call' and e.name in ('flag', 'unflag') and len(e.args) == 3 and rec is not None and \
+                        (e.args[0].split('#')[0] == rec or e.args[0] == rec_text):
+                    try:
+                        bit = int(e.args[2])
+                    except ValueError:
+                        byte = None
+                        break
+                    byte = (byte | (1 << bit)) if e.name == 'flag' else (byte & ~(1 << bit))
+            if byte is None:
+                ok = False
+                ops.append(('?', last))
+                continue
+            ops.append((byte, last))
+            has_is, has_has = bool(byte >> bit_is & 1), bool(byte >> bit_has & 1)
+            if last is None:
+                # the path does not depend on is_last: then HAS_TAIL would be the same for last and non-last chunks
+                ok = False
+            elif not has_is or has_has != (not last):
+                ok = False
         # the tail blocks are appended (no block argument) right after the head
         sw = [c for c in ast.walk(loop) if isinstance(c, ast.Call) and any(t.cls in STORAGES and t.name == 'write' for t in P.targets(c))]
         ok = ok and len(sw) == 1 and len(sw[0].args) == 1 and not sw[0].keywords
